@@ -4,6 +4,7 @@ import (
 	"fmt"
 	"io"
 	"regexp"
+	"regexp/syntax"
 	"sort"
 	"strings"
 	"unicode/utf16"
@@ -66,6 +67,9 @@ type regexpPattern struct {
 
 	regexpWrapper  *regexpWrapper
 	regexp2Wrapper *regexp2Wrapper
+
+	// re2MayMatchEmpty is set when the pattern compiled for regexpWrapper can match the empty string.
+	re2MayMatchEmpty bool
 }
 
 type regexpResult struct {
@@ -106,6 +110,45 @@ func compileRegexp2(src string, multiline, dotAll, ignoreCase, unicode bool) (*r
 	}
 
 	return &regexp2Wrapper{rx: regexp2Pattern}, nil
+}
+
+// re2MayMatchEmpty reports whether the (already validated) Go regular expression can match the empty string
+// somewhere.
+func re2MayMatchEmpty(expr string) bool {
+	re, err := syntax.Parse(expr, syntax.Perl)
+	if err != nil {
+		return true
+	}
+	return re2NodeMayMatchEmpty(re)
+}
+
+func re2NodeMayMatchEmpty(re *syntax.Regexp) bool {
+	switch re.Op {
+	case syntax.OpNoMatch, syntax.OpCharClass, syntax.OpAnyCharNotNL, syntax.OpAnyChar:
+		return false
+	case syntax.OpLiteral:
+		return len(re.Rune) == 0
+	case syntax.OpCapture, syntax.OpPlus:
+		return re2NodeMayMatchEmpty(re.Sub[0])
+	case syntax.OpRepeat:
+		return re.Min == 0 || re2NodeMayMatchEmpty(re.Sub[0])
+	case syntax.OpConcat:
+		for _, sub := range re.Sub {
+			if !re2NodeMayMatchEmpty(sub) {
+				return false
+			}
+		}
+		return true
+	case syntax.OpAlternate:
+		for _, sub := range re.Sub {
+			if re2NodeMayMatchEmpty(sub) {
+				return true
+			}
+		}
+		return false
+	}
+	// OpEmptyMatch, the zero-width assertions, OpStar, OpQuest
+	return true
 }
 
 func (p *regexpPattern) createRegexp2() {
@@ -160,7 +203,10 @@ func (p *regexpPattern) findAllSubmatchIndex(s String, start int, limit int, sti
 	if p.regexpWrapper == nil {
 		return p.regexp2Wrapper.findAllSubmatchIndex(s, start, limit, sticky, p.unicode)
 	}
-	if start == 0 {
+	// Go's FindAll* functions ignore an empty match that immediately follows the previous match, whereas
+	// ECMAScript reports it ("a".match(/a*/g) is ["a", ""]). When more than one match is requested from a
+	// pattern that can match the empty string the iteration therefore has to be done by regexp2.
+	if start == 0 && (limit == 1 || !p.re2MayMatchEmpty) {
 		a, u := devirtualizeString(s)
 		if u == nil {
 			return p.regexpWrapper.findAllSubmatchIndex(string(a), limit, sticky)
@@ -196,13 +242,14 @@ func (p *regexpPattern) findAllSubmatchIndex(s String, start int, limit int, sti
 // clone creates a copy of the regexpPattern which can be used concurrently.
 func (p *regexpPattern) clone() *regexpPattern {
 	ret := &regexpPattern{
-		src:        p.src,
-		global:     p.global,
-		ignoreCase: p.ignoreCase,
-		multiline:  p.multiline,
-		dotAll:     p.dotAll,
-		sticky:     p.sticky,
-		unicode:    p.unicode,
+		src:              p.src,
+		re2MayMatchEmpty: p.re2MayMatchEmpty,
+		global:           p.global,
+		ignoreCase:       p.ignoreCase,
+		multiline:        p.multiline,
+		dotAll:           p.dotAll,
+		sticky:           p.sticky,
+		unicode:          p.unicode,
 	}
 	if p.regexpWrapper != nil {
 		ret.regexpWrapper = p.regexpWrapper.clone()
